@@ -60,3 +60,7 @@ Definition g_auth_certificate : N := 1.
 Definition g_auth_psk : N := 2.
 Definition g_kx_psk : N := 2.
 Definition g_kx_ecdhe : N := 4.
+
+(* ---- from package ./internal/fragmentbuffer ---- *)
+Definition g_fragment_buffer_max_size : N := 2000000.
+Definition g_fragment_buffer_max_count : N := 1000.
